@@ -97,7 +97,29 @@ fn ck() -> impl Strategy<Value = CK> {
     prop_oneof![Just(CK::Ev), Just(CK::Unord), Just(CK::Unrel), Just(CK::Map), Just(CK::Trig)]
 }
 
+/// Start offsets just below the points where the varint encoding of a tick grows by a byte (encodings of ticks are part
+/// of every message; per-client ticks on both sides of such a point are a boundary class of their own).
+fn varint_edge_start() -> BoxedStrategy<u32> {
+    prop_oneof![
+        4 => Just(0u32),
+        2 => 90u32..127,
+        2 => 16_330u32..16_383,
+        1 => 2_097_100u32..2_097_151,
+        1 => 268_435_400u32..268_435_455,
+    ]
+    .boxed()
+}
+
 pub fn cfg_strategy(p: Profile, thorough: bool) -> BoxedStrategy<Cfg> {
+    let inner = cfg_strategy_inner(p, thorough);
+    if matches!(p, Profile::Events | Profile::Events3 | Profile::Sessions | Profile::Auth | Profile::Lossy | Profile::Split | Profile::Tracked) {
+        (inner, varint_edge_start()).prop_map(|(c, st)| if c.policy == 0 { Cfg { start_tick: st, ..c } } else { c }).boxed()
+    } else {
+        inner
+    }
+}
+
+fn cfg_strategy_inner(p: Profile, thorough: bool) -> BoxedStrategy<Cfg> {
     let max_clients = 3usize;
     let sizes = prop_oneof![Just(60usize), Just(200), Just(1200)];
     let base = (
@@ -287,7 +309,7 @@ pub fn step_strategy(cfg: &Cfg, p: Profile) -> BoxedStrategy<Step> {
     ];
     let wrap = matches!(p, Profile::Wrap);
     v.push((
-        w(cfg.policy == 0, if wrap { 5 } else if lossy { 1 } else { 0 }),
+        w(cfg.policy == 0, if wrap { 5 } else if lossy || cfg.events { 1 } else { 0 }),
         prop_oneof![3 => 2u8..12, 2 => 60u8..70, 1 => 70u8..200].prop_map(|by| Step::TickJump { by }).boxed(),
     ));
     v.push((w(wrap, 2), any::<u8>().prop_map(|fine| Step::BigJump { fine }).boxed()));
@@ -305,6 +327,7 @@ pub fn step_strategy(cfg: &Cfg, p: Profile) -> BoxedStrategy<Step> {
         (0..clients, 0..slots, proptest::bool::weighted(0.2), any::<bool>()).prop_map(|(client, slot, kill, gap)| Step::PreSpawn { client, slot, kill, gap }).boxed(),
     ));
     v.push((w(cfg.faults, if sessions { 4 } else { 1 }), (0..clients).prop_map(|client| Step::Disconnect { client }).boxed()));
+    v.push((w(cfg.faults, if sessions { 3 } else { 1 }), (0..clients).prop_map(|client| Step::DisconnectLate { client }).boxed()));
     v.push((w(sessions, 4), (0..clients).prop_map(|client| Step::Connect { client }).boxed()));
     v.push((
         w(cfg.faults, if sessions { 4 } else { 2 }),
